@@ -419,6 +419,7 @@ def rand_subtable(r, kinds=(0, 1, 2, 4, 5), wf=False):
         arrays["glyphs"] = [r.below(NG) for _ in range(ng)] if wf else [rand_gid(r) for _ in range(ng)]
         extra["nglyphs"] = ng
     mach = rand_machine(r, kind, extra, wf)
+    st["mach"], st["arrays"] = mach, arrays
     st["built"] = build_stx(r, kind, mach, NG, arrays)
     return st
 
@@ -791,6 +792,71 @@ def shape_vs_hook(ctx, shim, r, nfonts):
                          "== hook result minus deleted glyphs; non-trivial = the subtables changed the string")
 
 
+def to_fontbuild_recipe(chains):
+    """the same logical tables as a recipe of tools/fontbuild.py (an independently written builder)"""
+    out = []
+    for ch in chains:
+        subs = []
+        for st in ch["subtables"]:
+            k = st["kind"]
+            d = {"kind": k, "coverage": st["coverage"], "feature_flags": st["flags"]}
+            if k == 4:
+                d["map"] = dict(st["lookup"][1]); d["format"] = 6
+            else:
+                m, a = st["mach"], st["arrays"]
+                d.update({"classes": dict(m["classes"]), "nclasses": m["nclasses"], "class_format": 6,
+                          "states": [list(row) for row in m["states"]]})
+                ents = []
+                for ns, fl, x1, x2 in m["entries"]:
+                    e = {"new_state": ns, "flags": fl}
+                    if k == 1: e.update({"mark_index": x1, "current_index": x2})
+                    elif k == 2: e.update({"action_index": x1})
+                    elif k == 5: e.update({"current_insert_index": x1, "marked_insert_index": x2})
+                    ents.append(e)
+                d["entries"] = ents
+                if k == 1: d["substitutions"] = [{"format": 6, "map": dict(seen)} for _, seen in a["lookups"]]
+                elif k == 2: d.update({"lig_actions": a["actions"], "components": a["components"], "ligatures": a["ligatures"]})
+                elif k == 5: d["insert_glyphs"] = a["glyphs"]
+            subs.append(d)
+        out.append({"default_flags": ch["default"], "subtables": subs,
+                    "features": [{"type": t, "setting": sg, "enable": en, "disable": di} for t, sg, en, di in ch["features"]]})
+    return {"num_glyphs": NG, "cmap": "pua", "morx": {"version": 2, "chains": out}}
+
+
+def fontbuild_cross(ctx, shim, r, nfonts):
+    """The same well-formed tables serialised by this file's builder and by tools/fontbuild.py (different
+    lookup formats and a different array layout) must behave identically in the crate. Active once
+    tools/fontbuild.py (with morx support) is present, i.e. after the merge into main."""
+    try:
+        import fontbuild
+    except Exception:
+        ctx.cov.setdefault("probes", {})["fontbuild-cross"] = "tools/fontbuild.py not present in this worktree: stream skipped"
+        return
+    la, lb = [], []
+    for it in range(nfonts):
+        kind = [0, 1, 2, 4, 5][it % 5]
+        hexf, rec, chains = font_case(r, (kind,), nchains=1, max_sub=2, wf=True)
+        hexb = fontbuild.build(to_fontbuild_recipe(chains)).hex()
+        for _ in range(5):
+            n = r.range(1, 8)
+            gs = ",".join(f"{r.below(NG)}:{i}" for i in range(n))
+            tail = f"R 0 I {r.choice(['l', 'r', 't'])} {r.choice([0, 1, 2])} {r.choice([20, 60, 200])} - - {gs}"
+            la.append(f"morx run {hexf} {tail}"); lb.append(f"morx run {hexb} {tail}")
+    a = vlib.run_lines(shim, la, timeout=120); b = vlib.run_lines(shim, lb, timeout=120)
+    bad = nontriv = 0
+    for x, y, l1, l2 in zip(a, b, la, lb):
+        if x.startswith("ok") and x.split()[3] != l1.split()[-1]: nontriv += 1
+        if canon(x) != canon(y):
+            bad += 1
+            if bad <= 1:
+                ctx.violation("the same morx tables built by C17.py and by fontbuild.py behave differently",
+                              {"stage": "search", "stream": "morx-fontbuild-cross", "request": l1, "request_fontbuild": l2,
+                               "own_builder": x[:300], "fontbuild": y[:300]})
+    ctx.note_search("morx-fontbuild-cross", len(la), nontriv, mismatches=bad,
+                    rule="well-formed tables x strings <= 8: crate result on this file's font == crate result on "
+                         "fontbuild.py's font; non-trivial = the string was changed")
+
+
 def d17_probe(ctx, shim):
     """D17 through the public API: a non-contextual subtable switched on by `smcp` for clusters [2,4) only."""
     r = vlib.Rng(0, "d17")
@@ -858,21 +924,22 @@ def run(ctx):
     model = vlib.build_model()
     # 1. rearrangement through the hook: all 16 verbs x all marked ranges of buffers <= 8 / 10 glyphs
     ctx.correspond("morx-rearr-exhaustive", lines=rearr_lines(ctx.budget(8, 10)), classify=classify_rearr, canon=canon)
-    ctx.correspond("morx-rearr-random", lines=rearr_random(ctx.rng("rearr"), ctx.budget(4000, 100000)),
+    ctx.correspond("morx-rearr-random", lines=rearr_random(ctx.rng("rearr"), ctx.budget(4000, 200000)),
                    classify=classify_rearr, canon=canon)
     # 2. whole tables through hb_aat_layout_substitute
-    ctx.correspond("morx-run", lines=run_lines(ctx.rng("run"), ctx.budget(3000, 80000)), classify=classify_run,
+    ctx.correspond("morx-run", lines=run_lines(ctx.rng("run"), ctx.budget(3000, 150000)), classify=classify_run,
                    canon=canon, timeout=300)
-    ctx.correspond("morx-run-feat", lines=run_lines(ctx.rng("runfeat"), ctx.budget(1200, 30000), kinds=(0, 1, 2, 4),
+    ctx.correspond("morx-run-feat", lines=run_lines(ctx.rng("runfeat"), ctx.budget(1200, 60000), kinds=(0, 1, 2, 4),
                    with_feat=True), classify=classify_run, canon=canon, timeout=300)
     # 3. chain-flag compilation (add_feature + compile + compile_flags)
-    ctx.correspond("morx-compile", lines=compile_lines(ctx.rng("compile"), ctx.budget(1500, 40000)),
+    ctx.correspond("morx-compile", lines=compile_lines(ctx.rng("compile"), ctx.budget(1500, 80000)),
                    classify=classify_compile, canon=canon)
     # search
     verb_search(ctx, shim, model, ctx.budget(8, 10))
-    spec_search(ctx, shim, model, ctx.rng("spec"), ctx.budget(350, 7000))
-    corpus_search(ctx, shim, ctx.rng("corpus"), ctx.budget(400, 12000))
-    shape_vs_hook(ctx, shim, ctx.rng("shapehook"), ctx.budget(150, 3000))
+    spec_search(ctx, shim, model, ctx.rng("spec"), ctx.budget(350, 20000))
+    corpus_search(ctx, shim, ctx.rng("corpus"), ctx.budget(400, 15000))
+    shape_vs_hook(ctx, shim, ctx.rng("shapehook"), ctx.budget(150, 6000))
+    fontbuild_cross(ctx, shim, ctx.rng("fontbuild"), ctx.budget(150, 3000))
     d17_probe(ctx, shim)
     slow_probe(ctx, shim, model)
     # vlib.finish() reports a broken proof / correspondence on its own line only when no failing input was found;
